@@ -67,6 +67,8 @@ PROP = [  # (subject fragment, property ids, key that used to be reported)
  ("hunks of a deleted file were not highlighted in the file's language", 'C15', "c15:rename:colouring-depends-on-name (deleted foo.rs vs the same lines removed from foo.rs; found from a sub-agent's note; sub-check added)"),
  ("a wide character in a line-number format made side-by-side rows overflow", 'C07', "c07:truncated-* / row-width (number formats holding a double-width character; found from a sub-agent's note)"),
  ("with --hyperlinks the file path was printed in place of the line number when the absolute path is unknown", 'C19,C05', "(delta started in a directory that has been removed; found from a sub-agent's note, not generated by a check)"),
+ ("an empty line of grep output without a line number was not shown", 'C16', "(rg --json record with \"line_number\":null and empty text; found from a sub-agent's note, not generated by a check)"),
+ ("--hunk-header-style raw removed the line numbers from grep output", 'C16', "c16:line-number:* (found from a sub-agent's note; the option is varied now)"),
  ("lines differing by a zero-width character were paired at --max-line-distance 0", 'C06', "c06:distance-0-pairing / :sbs ('<U+0308>key' paired with ' key   ' at distance 0; found by the thorough tier)"),
 ]
 log = subprocess.run(['git', '-C', '/repo', 'log', '--format=%H%x09%s', '--reverse'], stdout=subprocess.PIPE).stdout.decode().splitlines()
